@@ -231,6 +231,9 @@ func analyseMapLoop(fn *ssa.Function, next *ssa.Next) (bool, string) {
 					}
 					continue
 				}
+				if b2, ok := x.Call.Value.(*ssa.Builtin); ok && b2.Name() == "delete" && len(x.Call.Args) == 2 && elemDerived(x.Call.Args[1]) {
+					continue // delete(m, k) keyed by the element: order independent (the clear-a-map idiom)
+				}
 				if b2, ok := x.Call.Value.(*ssa.Builtin); ok && (b2.Name() == "append") {
 					return false, "appends inside a map iteration: the result's order follows the map order"
 				}
